@@ -2559,6 +2559,8 @@ impl Compiler {
         let mut rest_param = None;
 
         for (idx, param) in params.iter().enumerate() {
+            // Binding a parameter can fail (destructuring `undefined`): locate it at the parameter
+            func_compiler.builder.set_span(param.span);
             match &param.pattern {
                 crate::ast::Pattern::Identifier(id) => {
                     param_names.push(id.name.cheap_clone());
